@@ -304,7 +304,16 @@ def search(ctx, hints):
     fs = eol_marker_failures()
     if fs:
         return {'failures': fs[:1], 'tried': len(EOL_MARKER_CASES)}
-    return common.generic_search(ctx, hints, oracle, gen=lambda r: gens_sc.sc_text(r)[0],
+    known = [k for k in vlib.load_known_findings() if k.get('property') == 'C08' and k.get('status') == 'open']
+
+    def oracle_new(text):
+        # violations that are not instances of a listed finding (the witnesses of the listed findings are among the candidates:
+        # reporting them unfiltered would end the search of the whole composite with an input that fails anyway)
+        for f in oracle_all(text):
+            if f['kind'] in VIOLATION_KINDS and classify(f, known) is None:
+                return f
+        return None
+    return common.generic_search(ctx, hints, oracle_new, gen=lambda r: gens_sc.sc_text(r)[0],
                                  extra_inputs=KNOWN_WITNESSES)
 
 
